@@ -240,6 +240,118 @@ def _accessor_uses(f):
     return uses, children_idx
 
 
+def _affine(e, var):
+    """e == a*var + b with integer constants -> (a, b), else None"""
+    if isinstance(e, ast.Name) and e.id == var:
+        return (1, 0)
+    if isinstance(e, ast.Constant) and isinstance(e.value, int) and not isinstance(e.value, bool):
+        return (0, e.value)
+    if isinstance(e, ast.UnaryOp) and isinstance(e.op, ast.USub):
+        r = _affine(e.operand, var)
+        return None if r is None else (-r[0], -r[1])
+    if isinstance(e, ast.BinOp):
+        l, r = _affine(e.left, var), _affine(e.right, var)
+        if l is None or r is None:
+            return None
+        if isinstance(e.op, ast.Add):
+            return (l[0] + r[0], l[1] + r[1])
+        if isinstance(e.op, ast.Sub):
+            return (l[0] - r[0], l[1] - r[1])
+        if isinstance(e.op, ast.Mult):
+            if l[0] == 0:
+                return (l[1] * r[0], l[1] * r[1])
+            if r[0] == 0:
+                return (l[0] * r[1], l[1] * r[1])
+    return None
+
+
+def _chain_alignment(f, rname, operand, ops, rel) -> list[Inst]:
+    """in a loop over the operands of `X (op X)*`, with k the position of the right operand (k >= 1): an operator taken
+    from the list of operator children has index k-1, one taken from ctx.children has index 2k-1.  Read off the loop:
+    `for i in range(1, n)` with X[i]; `for i, x in enumerate(X[s:], t)` (k = i - t + s); affine index expressions."""
+    ctxn = f.params[1] if len(f.params) > 1 else 'ctx'
+    out = []
+    alias = {}
+    for n in own_nodes(f.node):
+        tg = val = None
+        if isinstance(n, ast.Assign) and len(n.targets) == 1 and isinstance(n.targets[0], ast.Name):
+            tg, val = n.targets[0].id, n.value
+        elif isinstance(n, ast.NamedExpr):
+            tg, val = n.target.id, n.value
+        if tg and isinstance(val, ast.Call) and isinstance(val.func, ast.Attribute) and isinstance(val.func.value, ast.Name) \
+                and val.func.value.id == ctxn and not val.args:
+            alias[tg] = val.func.attr.rstrip('_')
+
+    def accessor(e):
+        if isinstance(e, ast.Name) and e.id in alias:
+            return alias[e.id]
+        if isinstance(e, ast.Call) and isinstance(e.func, ast.Attribute) and isinstance(e.func.value, ast.Name) \
+                and e.func.value.id == ctxn and not e.args:
+            return e.func.attr.rstrip('_')
+        if isinstance(e, ast.Attribute) and isinstance(e.value, ast.Name) and e.value.id == ctxn and e.attr == 'children':
+            return 'children'
+        return None
+    opset = set(ops)
+    for lp in own_nodes(f.node):
+        if not (isinstance(lp, ast.For)):
+            continue
+        var, k_of = None, None      # loop variable and k = ka*var + kb
+        it = lp.iter
+        if isinstance(lp.target, ast.Name) and isinstance(it, ast.Call) and isinstance(it.func, ast.Name) and it.func.id == 'range':
+            var = lp.target.id
+            # k is given by the operand subscript X[<affine>]
+            for n in ast.walk(lp):
+                if isinstance(n, ast.Subscript) and accessor(n.value) == operand and not isinstance(n.slice, ast.Slice):
+                    k_of = _affine(n.slice, var)
+        elif isinstance(lp.target, ast.Tuple) and len(lp.target.elts) == 2 and isinstance(lp.target.elts[0], ast.Name) \
+                and isinstance(it, ast.Call) and isinstance(it.func, ast.Name) and it.func.id == 'enumerate' and it.args:
+            var = lp.target.elts[0].id
+            src = it.args[0]
+            start = 0
+            if len(it.args) > 1 and isinstance(it.args[1], ast.Constant):
+                start = it.args[1].value
+            for kw in it.keywords:
+                if kw.arg == 'start' and isinstance(kw.value, ast.Constant):
+                    start = kw.value.value
+            lo = 0
+            if isinstance(src, ast.Subscript) and isinstance(src.slice, ast.Slice) and src.slice.upper is None \
+                    and src.slice.step is None:
+                if isinstance(src.slice.lower, ast.Constant) and isinstance(src.slice.lower.value, int):
+                    lo = src.slice.lower.value
+                elif src.slice.lower is not None:
+                    continue
+                src = src.value
+            if accessor(src) == operand and isinstance(start, int):
+                k_of = (1, lo - start)
+        if var is None or k_of is None or k_of[0] != 1:
+            continue
+        for n in ast.walk(lp):
+            if not (isinstance(n, ast.Subscript) and not isinstance(n.slice, ast.Slice)):
+                continue
+            acc = accessor(n.value)
+            if acc is None or not (acc in opset or acc == 'children'):
+                continue
+            idx = _affine(n.slice, var)
+            if idx is None:
+                continue
+            want = (2, 2 * k_of[1] - 1) if acc == 'children' else (1, k_of[1] - 1)
+            construct = f"(c') {rname}: the operator read for a step is the one standing before that step's operand"
+            if idx == want:
+                out.append(Inst(RULE, f.short, construct, 'ok', msg=stmt_text(n, 40), file=rel, line=n.lineno, props=PROPS))
+            else:
+                def fmt(ab):
+                    a, b = ab
+                    return (f'{a}*' if a != 1 else '') + var + (f'{b:+d}' if b else '')
+                out.append(Inst(
+                    RULE, f.short, construct, 'violation',
+                    msg=(f"in this loop the right operand is {operand} number {fmt(k_of)}; its operator is "
+                         f"{'child' if acc == 'children' else acc} number {fmt(want)}, but '{stmt_text(n, 40)}' reads number "
+                         f"{fmt(idx)}: every step gets the operator of a neighbouring position (the first one wraps around to "
+                         f"the last), so `a op1 b op2 c` is compiled with op1 and op2 exchanged"),
+                    file=rel, line=n.lineno, props=PROPS))
+    return out
+
+
 def _alternation(rname, tree, f, vname, rel) -> list[Inst]:
     """(g) a rule that is a pure alternation of tokens (setop: UNION | INTERSECT | MINUS): the visitor, run once per
     alternative (that token's accessor truthy, the others falsy; a bare `ctx.TOKEN` method object is always
@@ -465,6 +577,9 @@ def run(ctx) -> list[Inst]:
             else:
                 insts.append(Inst(RULE, f.short, construct, 'unproven', msg='operator source not recognised',
                                   file=rel, line=f.node.lineno, props=PROPS))
+        # (c') the operator of step k (between operands k-1 and k) is operator number k-1 / child number 2k-1
+        for operand, ops in operator_chains(tree):
+            insts += _chain_alignment(f, rname, operand, ops, rel)
         # (d)
         for sym in sorted(counts):
             if sym.startswith("'") or sym == 'EOF':
@@ -570,6 +685,36 @@ def _single_atom_multiplicity(ctx, visitor, rel):
             else:
                 out.append(Inst(RULE, f.short, construct, 'unproven', msg=f"'{stmt_text(n.test, 50)}' -> '{stmt_text(val, 40)}'",
                                 file=rel, line=n.lineno, props=PROPS, nontrivial=False))
+    # (k') the lower bound never depends on the upper one (a missing upper bound is filled FROM the lower, `*` as lower
+    # bound means 0 whatever the upper bound is): what is stored under 'min' reads nothing that came from ['max']
+    construct2 = "(k) the lower bound of a multiplicity is computed from the lower bound only"
+    for f in visitor.methods.values():
+        from_max = set()
+        for n in own_nodes(f.node):
+            if isinstance(n, ast.Assign) and len(n.targets) == 1 and isinstance(n.targets[0], ast.Name) \
+                    and max_of(n.value) is not None:
+                from_max.add(n.targets[0].id)        # a plain copy of the upper bound (`upper = side['max']`)
+        stores = []
+        for n in own_nodes(f.node):
+            if isinstance(n, ast.Dict):
+                for k_, v_ in zip(n.keys, n.values):
+                    if isinstance(k_, ast.Constant) and k_.value == 'min' and any(
+                            isinstance(k2, ast.Constant) and k2.value == 'max' for k2 in n.keys):
+                        stores.append((v_, n))
+            if isinstance(n, ast.Assign) and len(n.targets) == 1 and isinstance(n.targets[0], ast.Subscript) \
+                    and isinstance(n.targets[0].slice, ast.Constant) and n.targets[0].slice.value == 'min':
+                stores.append((n.value, n))
+        for (v_, at) in stores:
+            reads_max = [x for x in ast.walk(v_) if max_of(x) is not None or (isinstance(x, ast.Name) and x.id in from_max)]
+            if reads_max:
+                out.append(Inst(
+                    RULE, f.short, construct2, 'violation',
+                    msg=(f"the value stored under 'min' ('{stmt_text(v_, 50)}') reads '{stmt_text(reads_max[0])}', which "
+                         f"holds the UPPER bound: `1..*` gets the lower bound of `*` (0), a side that requires at least one "
+                         f"asset is compiled as optional"),
+                    file=rel, line=at.lineno, props=PROPS + ('C06',)))
+            elif not isinstance(v_, ast.Call) or 'getText' not in stmt_text(v_):
+                out.append(Inst(RULE, f.short, construct2, 'ok', msg=stmt_text(v_, 50), file=rel, line=at.lineno, props=PROPS))
     if not out:
         out.append(Inst(RULE, 'malVisitor', construct, 'unproven', msg='no test for a missing upper bound found', file=rel,
                         line=visitor.node.lineno, props=PROPS, nontrivial=False))
